@@ -255,9 +255,11 @@ def run(case, rec):
             rec.fail("L4:moved-away-without-moved-here", list(p))
     if not reduce_:
         # a removed and an added occurrence of the same data must be classified as a move
+        # (only for nodes that carry an added-mark, i.e. T1-only children of common parents and the direct
+        # children of such nodes - the documented example re-classifies exactly these)
         rem_plain = {p[-1] for p in R if dc(p) == DC.REMOVED}
         for p in R:
-            if p in added_all and p[-1] in rem_plain:
+            if (p in added_top or (p in added_all and p[:-1] in added_top)) and p[-1] in rem_plain:
                 rec.fail("L4:remove+add-of-same-data-not-classified-as-move", list(p))
                 break
     # result references the same data objects
@@ -294,5 +296,5 @@ def hyp_cases(draw, tier):
 
 
 PARTS = [
-    Part("pairs", run, strategy=lambda tier: hyp_cases(tier), n={"quick": 3000, "thorough": 150000}),
+    Part("pairs", run, strategy=lambda tier: hyp_cases(tier), n={"quick": 3000, "thorough": 400000}),
 ]
